@@ -109,6 +109,22 @@ fn verif_native_loader_cli() {
             }
         }
     }
+    // images that end exactly at, one below and one above the top of memory, with full-size files: (origin, file length)
+    for (orig, len) in [(0u16, 0x1FFFEusize), (0, 0x1FFFF), (0, 0x20000), (0, 0x20001), (0, 0x20002), (0, 0x20003), (0, 0x40000), (1, 0x1FFFE), (1, 0x20000), (0x3000, 0x1A000), (0x3000, 0x1A002), (0x3000, 0x20002)] {
+        let mut bytes = Vec::with_capacity(len);
+        bytes.extend_from_slice(&orig.to_be_bytes());
+        while bytes.len() < len { bytes.extend_from_slice(&[0xF0, 0x25]); }
+        bytes.truncate(len);
+        let path = dir.join("image.lc3");
+        std::fs::write(&path, &bytes).unwrap();
+        evaluated += 1;
+        let (code, _) = run_lace(&["run", "-m", path.to_str().unwrap()]).expect("lace binary");
+        let fits = len % 2 == 0 && orig as usize + len / 2 <= 0x10000;
+        let fail = |d: String| { verif_out(&format!("VERIF-COUNTEREXAMPLE name={} input=file of {:#x} bytes, first word {:04x}, every other word HALT detail={}", name, len, orig, d)); panic!("violation"); };
+        if code == 101 || code < 0 { fail(format!("crashed (exit status {})", code)); }
+        if !fits && code == 0 { fail("accepted although it is odd / too long".to_string()); }
+        if fits { loaded += 1; if code != 0 { fail(format!("image fits and starts with HALT in user space, but exit status is {}", code)); } }
+    }
     let _ = std::fs::remove_dir_all(&dir);
     assert!(loaded > 0);
     verif_out(&format!("VERIF-NATIVE name={} evaluated={} distinct={}", name, evaluated, loaded));
@@ -191,6 +207,28 @@ fn verif_native_trap_output() {
             panic!("violation");
         }
     }
+    // IN echoes the character it delivers in R0, and GETC / IN consume exactly one byte each, for ASCII and non-ASCII bytes:
+    // `in; putn; getc; out` fed <byte> 'Z' prints <echo><decimal R0>Z with code(echo) == R0
+    for byte in [0x01u8, b'a', 0x7F, 0x80, 0xC3, 0xFF] {
+        evaluated += 1;
+        let asm = dir.join("t.asm");
+        let src = "in\nputn\ngetc\nout\nhalt\n";
+        std::fs::write(&asm, src).unwrap();
+        let (code, out) = run_lace_stdin(&["run", "-m", asm.to_str().unwrap()], &[byte, b'Z']).expect("lace binary");
+        let body: String = out.lines().filter(|l| !l.contains("target") && !l.contains("emitted binary")).collect::<Vec<_>>().join("\n");
+        let body = body.trim_start_matches('\n');
+        let mut chars = body.chars();
+        let echo = chars.next();
+        let rest: String = chars.collect();
+        let num: String = rest.chars().take_while(|c| *c == '-' || c.is_ascii_digit()).collect();
+        let after = &rest[num.len()..];
+        let r0 = num.parse::<i32>().ok().map(|n| n as u16);
+        let ok = code == 0 && echo.is_some() && r0.is_some() && (echo.unwrap() as u32) == r0.unwrap() as u32 && after.starts_with('Z');
+        if !ok {
+            verif_out(&format!("VERIF-COUNTEREXAMPLE name={} input=program {:?} stdin bytes [{:#04x}, 'Z'] detail=exit status {}, output {:?}: IN must echo the character it puts in R0 (echo {:?}, R0 {:?}) and the next GETC must read 'Z'", name, src, byte, code, body, echo, r0));
+            panic!("violation");
+        }
+    }
     let _ = std::fs::remove_dir_all(&dir);
     verif_out(&format!("VERIF-NATIVE name={} evaluated={} distinct={}", name, evaluated, evaluated));
 }
@@ -246,6 +284,155 @@ fn verif_native_stack_gate_cli() {
                 name, src, a.0, String::from_utf8_lossy(&a.1), b.0, String::from_utf8_lossy(&b.1), img_on == img_off));
             panic!("violation");
         }
+    }
+    let _ = std::fs::remove_dir_all(&dir);
+    verif_out(&format!("VERIF-NATIVE name={} evaluated={} distinct={}", name, evaluated, evaluated));
+}
+
+/// C07 / C05 at the process level (feature-flag initialisation per subcommand is caller history in main(), outside every
+/// contract): 7 sources (plain, each stack mnemonic, a label out of range, a lexical error) x both feature settings: `check`,
+/// `compile` and `run` never crash (exit 101 / signal); a source that check accepts compiles; a source that compile rejects
+/// is an error for check and for run. (`check -f` is skipped when the subcommand does not take the option.)
+#[test]
+fn verif_native_check_cli() {
+    let name = "verif_native_check_cli";
+    if std::env::var("VERIF_LACE_BIN").is_err() { verif_out(&format!("VERIF-NATIVE name={} evaluated=0 distinct=0", name)); return; }
+    let dir = std::env::temp_dir().join(format!("lace-verif-checkcli-{}", std::process::id()));
+    std::fs::create_dir_all(&dir).unwrap();
+    let sources = [
+        ".orig x3000\nadd r0, r0, #1\nhalt\n.end\n",
+        ".orig x3000\npush r0\nhalt\n.end\n",
+        ".orig x3000\nhalt\npop r1\n.end\n",
+        ".orig x3000\nhalt\nf rets\ncall f\n.end\n",
+        "halt\nPush r2\n",
+        "ld r0, far\nhalt\n.blkw x200\nfar .fill 1\n",
+        "add r0, r0, #99999999\nhalt\n",
+    ];
+    let mut evaluated = 0u64;
+    let mut rejected = 0u64;
+    for src in sources {
+        for flag in [None, Some("stack")] {
+            let asm = dir.join("c.asm");
+            let obj = dir.join("c.lc3");
+            std::fs::write(&asm, src).unwrap();
+            let with = |sub: &str, extra: &[&str]| -> Vec<String> {
+                let mut a = vec![sub.to_string()];
+                if let Some(f) = flag { a.push("-f".into()); a.push(f.into()); }
+                for e in extra { a.push(e.to_string()); }
+                a
+            };
+            let go = |a: Vec<String>| { let r: Vec<&str> = a.iter().map(|s| s.as_str()).collect(); run_lace(&r).expect("lace binary").0 };
+            let check = go(with("check", &[asm.to_str().unwrap()]));
+            let compile = go(with("compile", &[asm.to_str().unwrap(), obj.to_str().unwrap()]));
+            let run = go(with("run", &["-m", asm.to_str().unwrap()]));
+            evaluated += 1;
+            if compile != 0 { rejected += 1; }
+            let setting = flag.map(|f| format!("-f {}", f)).unwrap_or("no feature flag".into());
+            let mut bad = None;
+            for (what, rc) in [("check", check), ("compile", compile), ("run", run)] {
+                if rc == 101 || rc < 0 { bad = Some(format!("`lace {}` crashed (exit status {})", what, rc)); }
+            }
+            // clap's usage error (2) on `check -f ..`: the subcommand does not take the option; nothing to compare
+            let check_takes_flag = !(flag.is_some() && check == 2);
+            if bad.is_none() && check_takes_flag {
+                if check == 0 && compile != 0 { bad = Some(format!("check reports success but compile rejects (exit {})", compile)); }
+                if compile != 0 && check == 0 { bad = Some("compile rejects but check reports success".into()); }
+                if compile != 0 && run == 0 { bad = Some("compile rejects but run succeeds".into()); }
+            }
+            if let Some(b) = bad {
+                verif_out(&format!("VERIF-COUNTEREXAMPLE name={} input=source {:?} with {} detail={} (check {}, compile {}, run {})", name, src, setting, b, check, compile, run));
+                panic!("violation");
+            }
+        }
+    }
+    let _ = std::fs::remove_dir_all(&dir);
+    assert!(rejected > 0 && rejected < evaluated, "degenerate enumeration");
+    verif_out(&format!("VERIF-NATIVE name={} evaluated={} distinct={}", name, evaluated, rejected));
+}
+
+/// C07 for `lace watch` (process level, timing-based so inconclusive runs are skipped, never reported): the file under watch is
+/// rewritten with 4 sources in turn (stack mnemonics, label out of range, lexical error, plain); each re-check must not
+/// crash the watcher and must give the verdict `lace check` gives for the same text under the same feature setting.
+#[test]
+fn verif_native_watch_cli() {
+    use std::io::Read as _;
+    let name = "verif_native_watch_cli";
+    let bin = match std::env::var("VERIF_LACE_BIN") { Ok(b) => b, Err(_) => { verif_out(&format!("VERIF-NATIVE name={} evaluated=0 distinct=0", name)); return; } };
+    let dir = std::env::temp_dir().join(format!("lace-verif-watch-{}", std::process::id()));
+    std::fs::create_dir_all(&dir).unwrap();
+    let asm = dir.join("w.asm");
+    let log = dir.join("w.out");
+    let sources = [
+        ".orig x3000\npush r0\npop r0\nhalt\n.end\n",
+        "ld r0, far\nhalt\n.blkw x200\nfar .fill 1\n",
+        "add r0, r0, #99999999\nhalt\n",
+        ".orig x3000\nadd r0, r0, #1\nhalt\n.end\n",
+    ];
+    let mut evaluated = 0u64;
+    for flag in [None, Some("stack")] {
+        std::fs::write(&asm, "halt\n").unwrap();
+        let mut args: Vec<&str> = vec!["watch"];
+        if let Some(f) = flag { args.push("-f"); args.push(f); }
+        args.push(asm.to_str().unwrap());
+        let out = std::fs::File::create(&log).unwrap();
+        let err = out.try_clone().unwrap();
+        let mut child = match std::process::Command::new(&bin).args(&args).stdin(std::process::Stdio::null()).stdout(out).stderr(err).spawn() { Ok(c) => c, Err(_) => continue };
+        std::thread::sleep(std::time::Duration::from_millis(1500));
+        if let Ok(Some(st)) = child.try_wait() {
+            if flag.is_some() && st.code() == Some(2) { continue; }   // the subcommand does not take -f
+        }
+        let setting = flag.map(|f| format!("-f {}", f)).unwrap_or("no feature flag".into());
+        'sources: for src in sources {
+            let before = std::fs::metadata(&log).map(|m| m.len()).unwrap_or(0);
+            std::fs::write(&asm, src).unwrap();
+            // what check says about this text
+            let mut cargs: Vec<&str> = vec!["check"];
+            if let Some(f) = flag { cargs.push("-f"); cargs.push(f); }
+            cargs.push(asm.to_str().unwrap());
+            let check = run_lace(&cargs).expect("lace binary").0;
+            let mut verdict = None;
+            for _ in 0..100 {
+                std::thread::sleep(std::time::Duration::from_millis(100));
+                let mut text = String::new();
+                if let Ok(mut f) = std::fs::File::open(&log) { let mut b = Vec::new(); let _ = f.read_to_end(&mut b); text = String::from_utf8_lossy(&b[(before as usize).min(b.len())..]).to_string(); }
+                if let Ok(Some(st)) = child.try_wait() {
+                    verif_out(&format!("VERIF-COUNTEREXAMPLE name={} input=watched file rewritten to {:?} with {} detail=`lace watch` died (exit status {:?}): {}", name, src, setting, st.code(),
+                        text.lines().find(|l| l.contains("panicked")).unwrap_or("")));
+                    panic!("violation");
+                }
+                if let Some(i) = text.find("Re-checking") {
+                    let rest = &text[i..];
+                    if rest.contains("no errors found") { verdict = Some(true); break; }
+                    if rest.contains('\u{d7}') || rest.contains("Error") || rest.contains("error") { verdict = Some(false); break; }
+                }
+            }
+            match verdict {
+                None => { break 'sources; }    // no file event seen in 10 s: inconclusive, skip
+                Some(ok) => {
+                    evaluated += 1;
+                    let mut ok = ok;
+                    if ok != (check == 0) {
+                        // a late event of the previous rewrite may have been answered: let things settle and read the LAST re-check
+                        std::thread::sleep(std::time::Duration::from_millis(2000));
+                        let mut b = Vec::new();
+                        if let Ok(mut f) = std::fs::File::open(&log) { let _ = f.read_to_end(&mut b); }
+                        let text = String::from_utf8_lossy(&b[(before as usize).min(b.len())..]).to_string();
+                        if let Some(i) = text.rfind("Re-checking") {
+                            let rest = &text[i..];
+                            if rest.contains("no errors found") { ok = true; } else if rest.contains('\u{d7}') || rest.contains("Error") || rest.contains("error") { ok = false; }
+                        }
+                    }
+                    if ok != (check == 0) {
+                        let _ = child.kill(); let _ = child.wait();
+                        verif_out(&format!("VERIF-COUNTEREXAMPLE name={} input=watched file rewritten to {:?} with {} detail=watch re-check says {} but `lace check` exits {}", name, src, setting, if ok { "success" } else { "error" }, check));
+                        panic!("violation");
+                    }
+                }
+            }
+            std::thread::sleep(std::time::Duration::from_millis(700));   // let the debounce window close
+        }
+        let _ = child.kill();
+        let _ = child.wait();
     }
     let _ = std::fs::remove_dir_all(&dir);
     verif_out(&format!("VERIF-NATIVE name={} evaluated={} distinct={}", name, evaluated, evaluated));
